@@ -637,8 +637,17 @@ pub fn init_wire<V, const K: usize>(vdaf: &V, agg_param: &V::AggregationParam, a
 where
     V: Aggregator<K, 16>,
 {
+    init_wire_as(vdaf, agg_param, a, a.agg_id)
+}
+
+/// As `init_wire`, with the input share decoded under `decode_id` (its position in the report) while
+/// verify_init runs under `a.agg_id`.
+pub fn init_wire_as<V, const K: usize>(vdaf: &V, agg_param: &V::AggregationParam, a: &AggInput<K>, decode_id: usize) -> Result<InitOut<V, K>, Fail>
+where
+    V: Aggregator<K, 16>,
+{
     let ps = step("decode_public_share", a.agg_id, || V::PublicShare::get_decoded_with_param(vdaf, &a.public_share))?;
-    let is = step("decode_input_share", a.agg_id, || V::InputShare::get_decoded_with_param(&(vdaf, a.agg_id), &a.input_share))?;
+    let is = step("decode_input_share", a.agg_id, || V::InputShare::get_decoded_with_param(&(vdaf, decode_id), &a.input_share))?;
     let (state, share) = step("verify_init", a.agg_id, || vdaf.verify_init(&a.verify_key, &a.ctx, a.agg_id, agg_param, &a.nonce, &ps, &is))?;
     let verifier_share = step("encode_verifier_share", a.agg_id, || share.get_encoded())?;
     Ok(InitOut { state, verifier_share })
